@@ -534,6 +534,22 @@ def rule_r6(chk, prog):
     sm = prog.mod('smtlib')
     ci = sm.func('collect_information')
     lams = [l for l in ast.walk(ci) if isinstance(l, ast.Lambda)]
+    # ... or a nested function of a closure factory ("def instantiate(args):
+    # return substitute(body, map)") anywhere in the module
+    from ..astutil import expand_locals as _el
+
+    class _Body:
+        pass
+
+    for q_, fn_ in sm.funcs.items():
+        if '<locals>' not in q_:
+            continue
+        rets_ = [r for r in walk_no_nested(fn_) if isinstance(r, ast.Return)]
+        if len(rets_) == 1 and isinstance(rets_[0].value, ast.Call) and (
+                call_name(rets_[0].value) or '').endswith('substitute'):
+            fb = _Body()
+            fb.body = _el(fn_, rets_[0].value)
+            lams.append(fb)
     found = False
     for l in lams:
         b = l.body
